@@ -7,10 +7,11 @@
      Encrypt authenticated (mac_input is injective below 2^61 bytes of AD) — an
      existential forgery against HMAC truncated to the tag size.
    Corollaries: modifications that leave (ad, prefix||iv||body) alone (tag-only
-   flips, changes behind ...) are rejected outright; every modification is rejected
-   when the presented tag is not a valid tag of a fresh message; modifications that
-   keep the tag bytes are rejected when the truncated HMAC has no second preimage
-   at x. *)
+   flips) are rejected outright; a modification is rejected when the presented tag is
+   not the truncated HMAC of THE MAC input this mutant parses to (per-instance
+   hypothesis, one input); modifications that keep the tag bytes are rejected when the
+   truncated HMACs of that input and of x differ (per-instance, one pair).  No hypothesis
+   quantifies over all messages: such a law is false of any real MAC by counting. *)
 From Coq Require Import List NArith Bool Arith Lia ZifyN ZifyNat ZifyBool.
 From Tink Require Import Bytes AeadFrame AeadFrameProofs Ctr CtrProofs EtM EtMProofs Mutation.
 Import ListNotations.
@@ -110,19 +111,32 @@ Section EtMMutation.
   Lemma dec_canon_err_or_ok prefix k c ad : dec_canon prefix k c ad = Err \/ exists p, dec_canon prefix k c ad = Ok p.
   Proof. unfold etm_dec_canon. destruct (_ && _ && _)%bool; [right; eauto|left; reflexivity]. Qed.
 
-  (* ---- rejection when there is no forgery: the presented tag is not a valid tag
-     of any MAC input other than the one Encrypt authenticated ---- *)
-  Theorem etm_mutant_rejected_without_forgery prefix k iv p ad c c' ad' :
+  (* ---- what happens to a modified pair, with the ONE MAC input it parses to:
+     x' = mac_input ad' (payload of c').  Either x' is the authenticated input x — then only
+     the tag bytes can have changed and the pair is rejected outright — or x' is fresh (Encrypt
+     never authenticated it) and the pair is rejected unless the presented tag IS the truncated
+     HMAC of x'.  The hypothesis of the middle clause is per-instance: it speaks of this
+     mutant's MAC input only; real HMAC satisfies it except with the forgery probability. ---- *)
+  Theorem etm_mutant_rejected_unless_forged prefix k iv p ad c c' ad' :
     (ek_tag k <= hlen)%nat -> lenN ad < 2 ^ 61 -> lenN ad' < 2 ^ 61 ->
     etm_enc aes hmac prefix k iv p ad = Ok c ->
     (c', ad') <> (c, ad) ->
-    (forall x', ~ hmac_forgery k (mac_input ad (iv ++ aes_ctr (aes (ek_aes k)) iv p)) x' (tag_of k c')) ->
-    etm_dec aes hmac prefix k c' ad' = Err.
+    let x := mac_input ad (iv ++ aes_ctr (aes (ek_aes k)) iv p) in
+    let x' := mac_input ad' (payload_of (length prefix) k c') in
+    (x' = x -> etm_dec aes hmac prefix k c' ad' = Err) /\
+    (tag_of k c' <> tmac k x' -> etm_dec aes hmac prefix k c' ad' = Err) /\
+    (forall p', etm_dec aes hmac prefix k c' ad' = Ok p' -> x' <> x /\ tag_of k c' = tmac k x').
   Proof.
-    intros Ht Ha Ha' He Hne Hnf. rewrite (etm_dec_is_canon aes hmac hlen aes_len hmac_len) by exact Ht.
-    destruct (dec_canon_err_or_ok prefix k c' ad') as [E|[p' E]]; [exact E|].
-    destruct (etm_accepted_mutant_is_forgery prefix k iv p ad c c' ad' p' Ht Ha Ha' He E Hne) as [F _].
-    exfalso. exact (Hnf _ F).
+    intros Ht Ha Ha' He Hne x x'. rewrite (etm_dec_is_canon aes hmac hlen aes_len hmac_len) by exact Ht.
+    assert (Hacc : forall p', dec_canon prefix k c' ad' = Ok p' -> x' <> x /\ tag_of k c' = tmac k x').
+    { intros p' E.
+      destruct (etm_accepted_mutant_is_forgery prefix k iv p ad c c' ad' p' Ht Ha Ha' He E Hne) as [[Hx Hv] _].
+      split; [exact Hx|symmetry; exact Hv]. }
+    split; [|split; [|exact Hacc]].
+    - intros Ex. destruct (dec_canon_err_or_ok prefix k c' ad') as [E|[p' E]]; [exact E|].
+      exfalso. exact (proj1 (Hacc p' E) Ex).
+    - intros Hn. destruct (dec_canon_err_or_ok prefix k c' ad') as [E|[p' E]]; [exact E|].
+      exfalso. exact (Hn (proj2 (Hacc p' E))).
   Qed.
 
   (* ---- no law at all: whatever leaves ad and prefix||iv||body alone is rejected
@@ -155,29 +169,35 @@ Section EtMMutation.
     rewrite Hc, <- !app_assoc. reflexivity.
   Qed.
 
-  (* ---- under a second-preimage law for the truncated HMAC at the authenticated input:
-     every modification that keeps the tag bytes (flips in IV or body, cuts and
-     extensions that re-attach the tag, other AD) is rejected ---- *)
-  Definition no_second_preimage (k : etm_key) (x : bytes) : Prop := forall x', x' <> x -> tmac k x' <> tmac k x.
-
+  (* ---- modifications that keep the tag bytes (flips in IV or body, cuts and extensions that
+     re-attach the tag, other AD): rejected when the truncated HMACs of THIS mutant's MAC input
+     and of the authenticated input differ (per-instance: one pair of inputs; real HMAC
+     satisfies it except with the collision probability 2^-(8 tag size)) ---- *)
   Theorem etm_tag_kept_mutation_rejected prefix k iv p ad c c' ad' :
     (ek_tag k <= hlen)%nat -> lenN ad < 2 ^ 61 -> lenN ad' < 2 ^ 61 ->
     etm_enc aes hmac prefix k iv p ad = Ok c ->
     (c', ad') <> (c, ad) -> tag_of k c' = tag_of k c ->
-    no_second_preimage k (mac_input ad (iv ++ aes_ctr (aes (ek_aes k)) iv p)) ->
+    let x := mac_input ad (iv ++ aes_ctr (aes (ek_aes k)) iv p) in
+    let x' := mac_input ad' (payload_of (length prefix) k c') in
+    (x' <> x -> tmac k x' <> tmac k x) ->
     etm_dec aes hmac prefix k c' ad' = Err.
   Proof.
-    intros Ht Ha Ha' He Hne Htag Hlaw. rewrite (etm_dec_is_canon aes hmac hlen aes_len hmac_len) by exact Ht.
+    intros Ht Ha Ha' He Hne Htag x x' Hinst. rewrite (etm_dec_is_canon aes hmac hlen aes_len hmac_len) by exact Ht.
     destruct (dec_canon_err_or_ok prefix k c' ad') as [E|[p' E]]; [exact E|exfalso].
     destruct (etm_accepted_mutant_is_forgery prefix k iv p ad c c' ad' p' Ht Ha Ha' He E Hne) as [[Hx Hv] Ho].
-    apply (Hlaw _ Hx). rewrite Hv, Ho. exact Htag.
+    apply (Hinst Hx). fold x' in Hv. fold x in Ho. rewrite Hv, Ho. exact Htag.
   Qed.
 End EtMMutation.
 
-(* ---- non-vacuity: with a constant block cipher and a constant MAC the "bad" event of the
-   reduction really happens (a body flip IS accepted and is a forgery in the sense above:
-   two different MAC inputs, same 10-byte tag), so the forgery conclusion is not an artefact;
-   and with a MAC that copies its input the laws hold and the mutant is rejected *)
+(* ---- non-vacuity.
+   (1) With a MAC without any strength (constant) the "bad" event of the reduction really
+   happens: a body flip IS accepted and is a forgery in the sense above (two different MAC
+   inputs, same 10-byte tag) — the forgery conclusion is not an artefact.
+   (2) ONE instance inhabits the round-trip theorem and the rejection theorems together: a toy
+   MAC that copies the end of its input (toy_hmac_copy), key with 12-byte IV and 10-byte tag:
+   Encrypt succeeds, Decrypt returns the plaintext, and for the mutant with one body bit
+   flipped the per-instance hypotheses hold (the presented tag is not the truncated MAC of the
+   mutant's MAC input; the two MAC inputs have different truncated MACs) and it is rejected. *)
 Definition toy_aes (k b : bytes) : bytes := zeros 16.
 Definition toy_hmac_const (k m : bytes) : bytes := zeros 20.
 Definition toy_hmac_copy (k m : bytes) : bytes := firstn 20 (rev m ++ zeros 20).
@@ -191,11 +211,18 @@ Example etm_forgery_event_is_real :
                (mac_input [9] (payload_of 0 toy_key c')) (tag_of toy_key c').
 Proof. cbv zeta. split; [vm_compute; reflexivity|]. split; [vm_compute; discriminate|vm_compute; reflexivity]. Qed.
 
-Example etm_rejection_premises_inhabited :
+Example etm_one_instance_round_trip_and_rejection :
   let k := toy_key in
-  let c := match etm_enc toy_aes toy_hmac_copy [] k (zeros 12) [1; 2; 3] [9] with Ok c => c | _ => [] end in
-  let c' := flip_bit 13 0 c in
-  etm_enc toy_aes toy_hmac_copy [] k (zeros 12) [1; 2; 3] [9] = Ok c /\
-  (c', [9]) <> (c, [9]) /\ tag_of k c' = tag_of k c /\
-  etm_dec toy_aes toy_hmac_copy [] k c' [9] = Err.
-Proof. cbv zeta. repeat split; try (vm_compute; reflexivity). vm_compute. discriminate. Qed.
+  let x := mac_input [9] (zeros 12 ++ aes_ctr (toy_aes (ek_aes k)) (zeros 12) [1; 2; 3]) in
+  exists c, etm_enc toy_aes toy_hmac_copy [] k (zeros 12) [1; 2; 3] [9] = Ok c /\
+    etm_dec toy_aes toy_hmac_copy [] k c [9] = Ok [1; 2; 3] /\
+    let c' := flip_bit 13 0 c in
+    let x' := mac_input [9] (payload_of 0 k c') in
+    (c', [9]) <> (c, [9]) /\ x' <> x /\
+    tag_of k c' <> tmac toy_hmac_copy k x' /\                 (* hypothesis of etm_mutant_rejected_unless_forged *)
+    tag_of k c' = tag_of k c /\ tmac toy_hmac_copy k x' <> tmac toy_hmac_copy k x /\   (* of etm_tag_kept_mutation_rejected *)
+    etm_dec toy_aes toy_hmac_copy [] k c' [9] = Err.
+Proof.
+  cbv zeta. eexists. split; [vm_compute; reflexivity|]. split; [vm_compute; reflexivity|].
+  repeat split; try (vm_compute; reflexivity); vm_compute; discriminate.
+Qed.
